@@ -48,7 +48,7 @@ pub fn check(id: &str, tier: &str, seed: u64) -> Option<i32> {
             ))
         }
         "C19" => {
-            let cases = if thorough { 300_000 } else { 30_000 };
+            let cases = if thorough { 300_000 } else { 60_000 };
             let out = explore_generic(
                 || crate::fifo::strategy(if thorough { 60 } else { 30 }),
                 cases,
